@@ -145,3 +145,117 @@ def as_minimization_problem():
             && *final(self) == (Instance { sense: final(self).sense, objective: final(self).objective, ..*old(self) }),
         // in every case the result is a minimisation problem
         final(self).sense == 1,''')
+
+
+# ---------------------------------------------------------------- C09
+PEN_REQ = '''requires
+        self.constraints.len() < 0x7FFF_FFFF_FFFF_FFFF,
+        // observations (outside the property's valid instances): id arithmetic must not overflow; operator code panics on unset oneofs
+        forall|i: int| 0 <= i < self.decision_variables.len() ==> (#[trigger] self.decision_variables[i]).id + self.constraints.len() + 1 < u64::MAX,
+        self.objective is Some ==> self.objective->Some_0.function is Some,
+        forall|i: int| 0 <= i < self.constraints.len() ==> ((#[trigger] self.constraints[i]).function is Some ==> self.constraints[i].function->Some_0.function is Some),'''
+PEN_COMMON = '''            &&& p.constraints.len() == 0
+            // every constraint of the input is kept as a removed constraint: those already removed first, then the active ones, unchanged
+            &&& p.removed_constraints.len() == nr + nc
+            &&& forall|j: int| 0 <= j < nr ==> #[trigger] p.removed_constraints[j] == self.removed_constraints[j]
+            &&& forall|i: int| 0 <= i < nc ==> (#[trigger] p.removed_constraints[nr + i]).constraint == Some(self.constraints[i])
+            // variables, sense, dependencies, hints, description carried over
+            &&& p.decision_variables == self.decision_variables && p.sense == self.sense && p.decision_variable_dependency == self.decision_variable_dependency
+            &&& p.constraint_hints == self.constraint_hints && p.description == self.description'''
+
+
+def penalty_method():
+    return Unit('Instance::penalty_method', F, 'penalty_method', impl=I, wrap=W,
+                sig='pub fn penalty_method(self) -> Result<ParametricInstance>',
+                header='''pub fn penalty_method(self) -> (r: Result<ParametricInstance, VErr>)
+    ''' + PEN_REQ + '''
+    ensures r is Ok,
+        ({ let p = r->Ok_0; let nc = self.constraints.len() as int; let nr = self.removed_constraints.len() as int;
+''' + PEN_COMMON + '''
+            // one fresh weight parameter per constraint: ids (max defined id)+1+i (0.. when there is no variable), tagged with the constraint id
+            &&& p.parameters.len() == nc
+            &&& exists|idb: u64| #![trigger next_or_zero(self.decision_variables@, idb)] next_or_zero(self.decision_variables@, idb)
+                  && forall|i: int| 0 <= i < nc ==> (#[trigger] p.parameters[i]).id == idb + i && p.parameters[i].subscripts@ == seq![self.constraints[i].id as i64]
+            // the objective is  f + sum_i (p_i * g_i) * g_i  built with the Function operators; its value is f + sum w_i g_i^2 by lemma_pen_value
+            &&& p.objective == Some(pen_obj(ofun(self), self.constraints@, p.parameters@, nc))
+            &&& pen_steps_ok(ofun(self), self.constraints@, p.parameters@, nc)
+        }),''',
+                closures=[dict(params='id', typed='id: &u64', ret='u64', requires='*id < u64::MAX', ensures='ret == *id + 1')],
+                subs=[('self.defined_ids().last().map(', 'opt_map(btreeset_last(&self.defined_ids()), '),
+                      ('hashmap! { "parameter_id".to_string() => parameter.id.to_string() }', 'hashmap1("parameter_id".to_string(), u64_to_string(parameter.id))'),
+                      ('let mut parameters = Vec::new();', 'let mut parameters: Vec<Parameter> = Vec::new();')],
+                rsubs=[(r'let mut removed_constraints =', 'let mut removed_constraints: Vec<RemovedConstraint> =', 1),
+                       (r'self\.constraints\.into_iter\(\)\.enumerate\(\)', 'enumerate_vec(self.constraints)', 1),
+                       (r'&parameter \* ((?:\w+)(?:\.\w+\([^()]*\))*)', r'<&Parameter as core::ops::Mul<Function>>::mul(&parameter, \1)', None)],
+                loops=[dict(kind='for', it='it_1', rebind='(__e.0, __e.1.vclone())',
+                            body_proof=' proof { assert(*__e == __h1[it_1.index@ as int]); }',
+                            inv='''invariant
+                __h1.len() == cs0.len(), forall|j: int| 0 <= j < __h1.len() ==> (#[trigger] __h1[j]).0 == j && __h1[j].1 == cs0[j],
+                forall|j: int| 0 <= j < cs0.len() ==> ((#[trigger] cs0[j]).function is Some ==> cs0[j].function->Some_0.function is Some),
+                id_base + cs0.len() < u64::MAX, f0.function is Some,
+                parameters.len() == it_1.index@, removed_constraints.len() == nr0 + it_1.index@,
+                forall|j: int| 0 <= j < nr0 ==> #[trigger] removed_constraints[j] == rs0[j],
+                forall|j: int| 0 <= j < it_1.index@ ==> (#[trigger] removed_constraints[nr0 + j]).constraint == Some(cs0[j]),
+                forall|j: int| 0 <= j < it_1.index@ ==> (#[trigger] parameters[j]).id == id_base + j && parameters[j].subscripts@ == seq![cs0[j].id as i64],
+                objective == pen_obj(f0, cs0, parameters@, it_1.index@ as int), objective.function is Some,
+                pen_steps_ok(f0, cs0, parameters@, it_1.index@ as int),''')],
+                proofs=[(('before', r'let id_base ='), '''proof {
+            let dvs = self.decision_variables@; let all = dv_ids(dvs, dvs.len() as int);
+            assert forall|y: u64| all.contains(y) implies y + self.constraints.len() + 1 < u64::MAX by { lemma_dv_ids_mem(dvs, dvs.len() as int, y); }
+            if dvs.len() > 0 { lemma_dv_ids_mem(dvs, dvs.len() as int, dvs[0].id); assert(all.contains(dvs[0].id)); }
+            else { assert forall|y: u64| !all.contains(y) by { lemma_dv_ids_mem(dvs, 0, y); } }
+        }
+        '''),
+                        (('after', r'let mut removed_constraints[^;]*;'), '''
+        let ghost cs0 = self.constraints@; let ghost rs0 = self.removed_constraints@; let ghost nr0 = self.removed_constraints.len() as int; let ghost f0 = ofun(self);
+        proof { lemma_next_or_zero(self.decision_variables@, id_base); }''')])
+
+
+def defined_ids_stub():
+    return '''impl Instance {
+    // Instance::defined_ids (iterator collect; verified in C08)
+    #[verifier::external_body] pub fn defined_ids(&self) -> (r: BTreeSet<u64>) ensures r@ == dv_ids(self.decision_variables@, self.decision_variables.len() as int) { unimplemented!() }
+}
+'''
+
+
+def uniform_penalty_method():
+    return Unit('Instance::uniform_penalty_method', F, 'uniform_penalty_method', impl=I, wrap=W,
+                sig='pub fn uniform_penalty_method(self) -> Result<ParametricInstance>',
+                header='''pub fn uniform_penalty_method(self) -> (r: Result<ParametricInstance, VErr>)
+    ''' + PEN_REQ + '''
+    ensures r is Ok,
+        ({ let p = r->Ok_0; let nc = self.constraints.len() as int; let nr = self.removed_constraints.len() as int;
+''' + PEN_COMMON + '''
+            // one fresh weight parameter
+            &&& p.parameters.len() == 1 && next_or_zero(self.decision_variables@, p.parameters[0].id)
+            // objective = f + p * (sum_i g_i * g_i); its value is f + w * sum g_i^2 by lemma_uniform_value
+            &&& p.objective == Some(fn_add(ofun(self), par_mul(p.parameters[0], quad_acc(self.constraints@, nc))))
+            &&& quad_steps_ok(self.constraints@, nc) && is_par_prod(par_mul(p.parameters[0], quad_acc(self.constraints@, nc)), p.parameters[0], quad_acc(self.constraints@, nc))
+            &&& is_sum(p.objective->Some_0, ofun(self), par_mul(p.parameters[0], quad_acc(self.constraints@, nc)))
+        }),''',
+                closures=[dict(params='id', typed='id: &u64', ret='u64', requires='*id < u64::MAX', ensures='ret == *id + 1')],
+                subs=[('self.defined_ids().last().map(', 'opt_map(btreeset_last(&self.defined_ids()), ')],
+                rsubs=[(r'let mut removed_constraints =', 'let mut removed_constraints: Vec<RemovedConstraint> =', 1),
+                       (r'in self\.constraints\.into_iter\(\)', 'in self.constraints', 1),
+                       (r'&parameter \* ((?:\w+)(?:\.\w+\([^()]*\))*)', r'<&Parameter as core::ops::Mul<Function>>::mul(&parameter, \1)', None)],
+                loops=[dict(kind='for', it='it_1', rebind='__e.vclone()',
+                            body_proof=' proof { assert(*__e == __h1[it_1.index@ as int]); }',
+                            inv='''invariant
+                __h1@ == cs0,
+                forall|j: int| 0 <= j < cs0.len() ==> ((#[trigger] cs0[j]).function is Some ==> cs0[j].function->Some_0.function is Some),
+                removed_constraints.len() == nr0 + it_1.index@,
+                forall|j: int| 0 <= j < nr0 ==> #[trigger] removed_constraints[j] == rs0[j],
+                forall|j: int| 0 <= j < it_1.index@ ==> (#[trigger] removed_constraints[nr0 + j]).constraint == Some(cs0[j]),
+                quad_sum == quad_acc(cs0, it_1.index@ as int), quad_sum.function is Some,
+                quad_steps_ok(cs0, it_1.index@ as int),''')],
+                proofs=[(('before', r'let id_base ='), '''proof {
+            let dvs = self.decision_variables@; let all = dv_ids(dvs, dvs.len() as int);
+            assert forall|y: u64| all.contains(y) implies y + self.constraints.len() + 1 < u64::MAX by { lemma_dv_ids_mem(dvs, dvs.len() as int, y); }
+            if dvs.len() > 0 { lemma_dv_ids_mem(dvs, dvs.len() as int, dvs[0].id); assert(all.contains(dvs[0].id)); }
+            else { assert forall|y: u64| !all.contains(y) by { lemma_dv_ids_mem(dvs, 0, y); } }
+        }
+        '''),
+                        (('after', r'let mut quad_sum[^;]*;'), '''
+        let ghost cs0 = self.constraints@; let ghost rs0 = self.removed_constraints@; let ghost nr0 = self.removed_constraints.len() as int;
+        proof { lemma_next_or_zero(self.decision_variables@, id_base); }''')])
